@@ -75,6 +75,17 @@ class World:
         eng.methods[("RenderData", "__getitem__")] = lambda e, s, recv, a, k: [(self.rdata, s)]
         eng.methods[("RenderableData", "update")] = self.rd_update
         eng.methods[("Padding", "get_padded_size")] = self.get_padded_size
+        # to_exact(size): an exact padding equivalent to this one FOR THAT SIZE ONLY (another object, another padding in general)
+        EXACT = z3.Function("exact_padding_for", I, I, I, I)
+
+        def to_exact(e, s, recv, a, k):
+            s = e.fork(s)
+            sz = a[0]
+            w_, h_ = sz.f["width"], sz.f["height"]
+            pid = EXACT(to_z3(s.H(recv)["pid"]), to_z3(w_), to_z3(h_))
+            s.pc += [PW(pid, w_, h_) == PW(s.H(recv)["pid"], w_, h_), PH(pid, w_, h_) == PH(s.H(recv)["pid"], w_, h_)]
+            return [(s.new("ExactPadding", {"pid": pid, "relative": False, "exact_of": recv.id}), s)]
+        eng.methods[("Padding", "to_exact")] = to_exact
         eng.methods[("Padding", "pad")] = lambda e, s, recv, a, k: [(PADO(s.H(recv)["pid"], to_z3(a[0]), a[1].f["width"], a[1].f["height"]), s)]
         eng.methods[("Padding", "resolve")] = self.resolve
         eng.attrs[("Padding", "relative")] = lambda e, s, v: [(s.H(v).get("relative", False), s)]
